@@ -10,6 +10,33 @@ C12_FAST = [f"rt_{w}" for w in W] + [f"pair_{w}" for w in W] + ["rt_f32", "rt_f6
 C12_WIDE = ["pair_u128", "pair_i128"]
 
 PROPS = {
+    "C16": {
+        "verus": ["c16_policy", "c16_sketch"],
+        "kani": [
+            {"repo_crate": "storage", "kind": "complete", "hook_files": ["storage_tiny_lfu_sketch.rs"],
+             "harnesses": ["cms_reset_halves_every_counter", "bloom_clear_zeroes_all_words", "cms_increment_touches_only_its_cells_and_saturates"],
+             "tiers": ("quick", "thorough"), "jobs": 3,
+             "bound": "one 64-bit word (16 cells), full-domain word and hash: complete for a word; loops over the table are not unrolled beyond it"},
+        ],
+        "native": [
+            {"name": "lru_conformance", "repo_crate": "storage", "package": "qbice_storage", "test": "verif_lru_conformance", "env": {"VERIF_LRU_DEPTH": 3},
+             "ok_re": r"VERIF-LRU-CONFORMANCE ok sequences=(\d+)", "bad_re": r"VERIF-LRU-CONFORMANCE VIOLATION.*", "tiers": ("quick", "thorough"),
+             "bound": "ALL sequences of <= 3 Lru operations (9 kinds) over 3 keys x 4 regions x capacity {0,1}: every clause of the abstract Lru contract assumed by the Policy proof, evaluated on the real Lru after every call (pointer discipline included)"},
+            {"name": "lru_conformance_miri", "repo_crate": "storage", "package": "qbice_storage", "test": "verif_lru_conformance", "env": {"VERIF_LRU_DEPTH": 2}, "miri": True,
+             "ok_re": r"VERIF-LRU-CONFORMANCE ok sequences=(\d+)", "bad_re": r"VERIF-LRU-CONFORMANCE VIOLATION.*", "tiers": ("thorough",), "timeout": 7000,
+             "bound": "same run at depth 2 under Miri: use-after-free / double free / invalid pointer use / leaks in the unsafe list code"},
+        ],
+        "witness": witness.c16,
+        "assumptions": [
+            "the abstract contract of `Lru` (specs/c16_policy.rs) is ASSUMED by the Verus proof of Policy; the real Lru (raw pointers + HashMap) is checked against every clause only by the bounded exhaustive conformance run (depth 3; Miri at depth 2 in the thorough tier)",
+            "remove: impl Fn(&K)->bool is carried as an abstract closure: remove.ensures((k,),true) means 'the owner confirmed the removal' (TinyLFU::remove_closure re-checks is_pinned under the entry lock: that closure, scc::HashMap and the lock are NOT under contract)",
+            "K::clone returns an equal key (axiom_key_clone)",
+            "Sketch and the hasher are opaque for the Policy proof (any frequency estimate is safe); sketch.rs itself is verified for index/overflow safety under `global size_of usize == 8`",
+            "BloomFilter::clear and CountMinSketch::reset use iter_mut (no usable Verus model): contract trusted in Verus, checked by Kani on one word",
+            "Policy::new (f64 arithmetic) is not under contract: the invariant's capacity relations are a precondition",
+            "concurrency is NOT decided: write_buffer/read_buffer lag between storage map and policy, DedicatedThread mode, the lock-table sentence of the property (query_lock_manager.rs)",
+        ],
+    },
     "C10": {
         "verus": ["c10_writebehind"],
         "kani": [],
